@@ -10,7 +10,7 @@ RT_ASSUMPTIONS = [
     "half-integers; time.time() of the scheduler module is the loop clock",
     "jobs honour cancellation (re-raise CancelledError, possibly after a delay); "
     "co_shutdown handlers do not raise",
-    "pinned interpreter (CPython 3.12.1 asyncio); trees of depth <= 3 and <= ~14 jobs",
+    "pinned interpreter (CPython 3.12.1 asyncio); trees of depth <= 3 and <= ~16 jobs (<= 5 members per scheduler, occasionally up to 9)",
     "set iteration order and same-instant timer order are generated inputs "
     "(hash keys / tie keys), not all interleavings of an arbitrary event loop",
 ]
